@@ -94,7 +94,7 @@ def judge(prop, bad, scen_by_id, wd):
     return lines, len(viol), known
 
 
-def run_sched(prop, tier, seed, extra_cov=None, extra_assume=None, tlc_runs=()):
+def sched_part(prop, tier, seed, extra_cov=None, extra_assume=None, tlc_runs=()):
     t0 = time.time()
     wd = core.workdir(prop)
     try:
@@ -135,11 +135,8 @@ def run_sched(prop, tier, seed, extra_cov=None, extra_assume=None, tlc_runs=()):
             cov.update(extra_cov)
         assume = ["synctest quiescence is exact", "row markers are self-delimiting", "TLC evaluates Obs.tla correctly",
                   "known findings are matched by rule name, which carries the mechanism (specs/Obs.tla)"]
-        core.write_evidence(prop, tier, seed, "model_checking", cov, assume + (extra_assume or []), time.time() - t0, nviol)
-        for ln in lines:
-            print(ln)
-        print("%s %s: %d traces, %d monitor states, %d violations, %.1fs" % (prop, tier, len(traces), st, nviol, time.time() - t0))
-        return 1 if nviol else 0
+        lines.append("%s %s sched: %d traces, %d monitor states, %d violations, %.1fs" % (prop, tier, len(traces), st, nviol, time.time() - t0))
+        return {"cov": cov, "lines": lines, "nviol": nviol, "assume": assume + (extra_assume or [])}
     finally:
         shutil.rmtree(wd, ignore_errors=True)
 
@@ -174,7 +171,47 @@ def setup():
         shutil.rmtree(wd, ignore_errors=True)
 
 
+def barstate_part(prop, tier, seed):
+    from . import barstate
+    cov, lines, nviol, wall = barstate.run(prop, tier, seed)
+    lines.append("%s %s barstate: %d sequences replayed, %d violations, %.1fs" % (prop, tier, cov["evaluations"], nviol, wall))
+    return {"cov": cov, "lines": lines, "nviol": nviol,
+            "assume": ["the getters Current/Completed/Aborted are the observation; refill and total are not observable without a frame",
+                       "int64 range: arguments beyond the small model domain are covered by the homogeneity of the rules (no overflow), not by TLC"]}
+
+
+PARTS = {p: [sched_part] for p in SCHED_PLANS}
+PARTS["C09"] = [barstate_part]
+PARTS["C11"] = [barstate_part, sched_part]
+LEVEL = {"C15": "fault_enumeration"}
+
+
+def merge(covs):
+    out = {"states": 0, "transitions": 0, "traces_validated_against_impl": 0, "evaluations": 0, "distinct_nontrivial": 0,
+           "samples": [], "rule": "", "exhaustive": False, "parts": []}
+    for c in covs:
+        for k in ("states", "transitions", "traces_validated_against_impl", "evaluations", "distinct_nontrivial"):
+            out[k] += c.get(k, 0)
+        out["samples"].extend(c.get("samples", [])[:3])
+        out["rule"] += (" | " if out["rule"] else "") + c.get("rule", "")
+        out["parts"].append({k: v for k, v in c.items() if k not in ("samples",)})
+    out["checker_cmd"] = " ; ".join(c.get("checker_cmd", "") for c in covs)
+    return out
+
+
 def run_property(prop, tier, seed):
-    if prop in SCHED_PLANS:
-        return run_sched(prop, tier, seed)
-    raise core.Infra("no check registered for " + prop)
+    if prop not in PARTS:
+        raise core.Infra("no check registered for " + prop)
+    t0 = time.time()
+    res = [part(prop, tier, seed) for part in PARTS[prop]]
+    nviol = sum(r["nviol"] for r in res)
+    assume = []
+    for r in res:
+        for a in r["assume"]:
+            if a not in assume:
+                assume.append(a)
+    core.write_evidence(prop, tier, seed, LEVEL.get(prop, "model_checking"), merge([r["cov"] for r in res]), assume, time.time() - t0, nviol)
+    for r in res:
+        for ln in r["lines"]:
+            print(ln)
+    return 1 if nviol else 0
